@@ -92,6 +92,18 @@ theorem readUvarintAsInt_progress (bs : Bytes) (v : Int) (r : Bytes)
     exact readUvarint_progress bs u _ heq
   · cases h
 
+/-- `n ≤ l.length`, computed in `O(n)` (the remaining input can be long). -/
+def hasLen : List α → Nat → Bool
+  | _, 0 => true
+  | [], _ + 1 => false
+  | _ :: l, n + 1 => hasLen l n
+
+theorem hasLen_iff : ∀ (l : List α) (n : Nat), hasLen l n = true ↔ n ≤ l.length := by
+  intro l
+  induction l with
+  | nil => intro n; cases n <;> simp [hasLen]
+  | cons a l ih => intro n; cases n <;> simp [hasLen, ih]
+
 /-- `zcode.SizeOfUvarint`. -/
 def sizeOfUvarint (u : Nat) : Nat := if u < 128 then 1 else sizeOfUvarint (u / 128) + 1
 decreasing_by omega
